@@ -5,14 +5,15 @@ from harness.runner import BCheck
 from scenario import phasing as PH, vcf as V
 
 LEVEL = "exploration"
-LEVEL_TEXT = ("Bounded stand-in: whole `whatshap phase` runs (VCF-only phase inputs, no BAM needed) on generated multi-sample, multi-chromosome VCFs "
+LEVEL_TEXT = ("Deductive part (vcgen/z3, all inputs, over the axiomatised pysam model): PhasedVcfWriter._remove_existing_phasing clears HP and PS and every phase bit of the target samples' calls, sorts fully known genotypes (same allele multiset), leaves partially missing / absent genotypes, the calls of non-target samples and the FORMAT keys exactly as they were (contracts/vcf_py.py). "
+              "Bounded stand-in: whole `whatshap phase` runs (VCF-only phase inputs, no BAM needed) on generated multi-sample, multi-chromosome VCFs "
               "with arbitrary INFO/FORMAT fields, missing/partial genotypes, multi-ALT, symbolic and duplicate records and pre-existing phasing, over "
               "--sample/--chromosome selections, both tags and --only-snvs; the output is compared with the input record by record by an independent "
               "text differ that allows exactly the changes the statement allows. The frame contract of PhasedVcfWriter.write is not yet discharged "
               "deductively (pysam record model pending), so nothing is claimed as proved.")
 LEVEL_NOTE = "Trusted: htslib's text round trip of untouched fields (exercised by the differ itself); generator covers the stated shapes by seeded sampling, not exhaustively."
 TECHNIQUE = "runtime contract on run_whatshap/PhasedVcfWriter (frame + allowed-change differ) over generated VCFs; bounded stand-in for the deductive frame contract"
-D_MODULES = []
+D_MODULES = ["contracts.vcf_py"]
 EXPLANATION = LEVEL_TEXT
 TRUSTED_BASE = ["independent VCF text parser in scenario/vcf.py", "pysam/htslib serialisation"]
 ASSUMPTIONS = ["phase information is supplied through phased VCFs (pseudo reads); BAM allele detection is covered by C02/C06"]
